@@ -48,6 +48,9 @@ type Builder struct {
 	// litBindName: the closure term name ("#N") of the literal bound by litBind (the same source
 	// literal is evaluated once per inline instance; this says which evaluation was passed)
 	litBindName map[*ast.FuncLit]string
+	// dispatchFns: named functions a dispatched call may also hold (a table that mixes literals
+	// and named functions); consumed by dispatchLits
+	dispatchFns []*types.Func
 	// nextLabel: label of the statement being built (consumed by the loop /
 	// switch context it pushes)
 	nextLabel string
